@@ -193,9 +193,6 @@ def domain(case):
         elif k in ("bset", "bget"):
             if not (0 <= op["lo"] <= op["hi"] < 32 and op["hi"] < _w(dt)):
                 return "bit range outside the carrier type / not within 32 bits"
-            if k == "bset" and op["hi"] >= _usable(dt):
-                return ("bits: assignment to a field that includes the sign bit of a signed type "
-                        "(raises ValueError on the unchanged tree; reported, see final report)")
             if op["sp"] == "int" and op["lo"] != op["hi"]:
                 return "single bit number for a multi-bit range"
             if op["sp"] == "slice0" and op["lo"] != 0:
@@ -744,8 +741,19 @@ def signbit_cases():
                        {"op": "raw", "v": -1},
                        {"op": "bget", "sp": sp, "lo": lo, "hi": hi}]
                 yield base_case(dt, ops, init=_val(dt, u0), salt=i, hold=False, factor=(0.1, 1, -2, 0.25)[i % 4])
-        for lo, v in ((w - 1, 1), (w - 1, 0), (w - 4, 0xF), (0, full)):
-            yield base_case(dt, [{"op": "bset", "sp": "slice", "lo": lo, "hi": w - 1, "v": v}], init=0, salt=lo)
+        # assigning fields that include the sign bit (repaired in /repo by commit "bit fields that
+        # include the sign bit ..."): from raw 0, from -1 and from a mixed pattern, every spelling
+        for lo in sorted({w - 1, w - 2, w - 4, w // 2, 1, 0}):
+            hi = w - 1
+            n = hi - lo + 1
+            spell = ["list", "slice", "name"] + (["int"] if lo == hi else []) + (["slice0"] if lo == 0 else [])
+            for sp in spell:
+                for init in (0, -1, _val(dt, _mix(lo, w, 7) & full)):
+                    for v in sorted({(1 << n) - 1, 0, 1 << (n - 1), (1 << (n - 1)) - 1, _mix(lo, n, 3) & ((1 << n) - 1)}):
+                        i += 1
+                        yield base_case(dt, [{"op": "bset", "sp": sp, "lo": lo, "hi": hi, "v": v},
+                                             {"op": "bget", "sp": sp, "lo": lo, "hi": hi}],
+                                        init=init, salt=i, hold=False)
 
 
 def factors():
